@@ -1378,6 +1378,9 @@ def result_edges(body, call_block):
     `?` desugaring Try::branch), else None."""
     def is_this_call(t):
         t = strip_refs(t)
+        # `x.await` seen through the poll loop: Poll::Ready(v) payload
+        if t[0] == "field" and t[2] == "0" and t[1][0] == "downcast" and t[1][2] == "Ready":
+            t = strip_refs(t[1][1])
         return (t[0] == "call" and t[3] == call_block) or (t[0] == "await" and (t[2] == call_block or inner_call_block(t) == call_block))
 
     def inner_call_block(t):
@@ -1390,6 +1393,8 @@ def result_edges(body, call_block):
         t = body.blocks[bi]["t"]
         if t["k"] != "switch":
             continue
+        if "d:Await" in t["at"][1]:
+            continue            # the Poll::Ready/Pending test of the `.await` machinery, not a test of the awaited value
         term = body.switch_term(bi, expand_vars=True)
         if term[0] != "discr":
             continue
